@@ -2207,6 +2207,12 @@ def compare(out, what, case, exp, ans):
             return
     elif ans == exp:
         return
+    elif what.startswith("_combine_tables(") and isinstance(ans, list) and isinstance(exp, list) and \
+            sorted(map(repr, ans)) == sorted(map(repr, exp)):
+        # the register `_combine_tables` hands to `_check_dataframe` is put into dataframe column order there: the
+        # order of this intermediate is promised by nothing
+        out.count("combine register in another order (not compared)")
+        return
     # localise: first differing step
     if isinstance(exp, dict) and "steps" in exp and isinstance(ans, dict) and "steps" in ans:
         if not _same_step(exp["init"], ans["init"]):
